@@ -117,6 +117,7 @@ package nbs
 // length its own length field announces, or is shorter than the minimum record).
 //@ func validateJournalRecord
 //@   property C03 C10
+//@   ghost_set verif_ghost.jValidOK = (result == nil)
 //@   nopanic
 //@   requires len(buf) < 8 || int(verif_be32(buf)) == len(buf)
 //@   ensures  result == nil ==> verif_validrec(buf)
@@ -226,6 +227,7 @@ package nbs
 // exactly the carried-over bytes plus the bytes just read (no byte obtained from the reader is skipped).
 //@ func possibleDataLossCheck
 //@   property C03 C10
+//@   ghost_set verif_ghost.jLossFound = result0
 //@   nopanic
 //@   loop 1
 //@     invariant 0 <= bufferPrefix && bufferPrefix <= len(buf) && !atEOF
@@ -726,8 +728,14 @@ package nbs
 
 // processJournalRecords: the journal file is truncated / fsynced only when the caller allowed it
 //@ func processJournalRecords
-//@   property C41 C04
+//@   property C41 C04 C03
+//@   assume_requires processJournalRecordsReader
 //@   at call Truncate: assert tryTruncate
+// the journal is cut only at the offset where the record scan stopped, and never when the scan stopped in a recovery
+// state and valid data was found beyond that point (that is reported as data loss instead)
+//@   at call Truncate: assert arg1:int64 == verif_ghost.jReaderOff && (!recovered || !verif_ghost.jLossFound)
+//@   ensures  result1 == nil ==> result0 == verif_ghost.jReaderOff
+//@   also_modifies verif_ghost.iRead, verif_ghost.jValidOK, verif_ghost.jLossFound, verif_ghost.jReaderOff
 //@   at call Sync: assert tryTruncate
 
 // bootstrapJournal: every step that may write is handed the caller's canWrite, and its own writes are guarded by it
@@ -844,3 +852,43 @@ package nbs
 //@   loop 1
 //@     invariant off + batchOff == verif_ghost.iRead - old(verif_ghost.iRead)
 //@     invariant len(batch) == 0 ==> batchCrc == 0 && batchOff == 0
+
+// ---- journal replay loop (C03, C10): for EVERY byte stream
+
+//@ func verif_stream
+//@   pure
+//@   opaque
+
+// bufio.Reader.Peek(n): on success exactly the next n bytes of the stream, without consuming them; the reader was
+// created with a buffer of journalWriterBuffSize bytes, so a longer peek can never succeed
+//@ extern (*bufio.Reader).Peek as verif_x_bufio_Peek
+//@   requires n >= 0 && n <= int(journalWriterBuffSize)
+//@   modifies nothing
+//@   ensures err == nil ==> len(b) == n
+//@   ensures err == nil ==> forall k in 0..n: b[k] == verif_stream(verif_ghost.iRead+int64(k))
+//@   ensures err == nil && n >= 4 ==> b[0] == verif_stream(verif_ghost.iRead) && b[1] == verif_stream(verif_ghost.iRead+1) && b[2] == verif_stream(verif_ghost.iRead+2) && b[3] == verif_stream(verif_ghost.iRead+3)
+
+//@ extern bufio.NewReaderSize as verif_x_bufio_NewReaderSize
+//@   modifies nothing
+//@   ensures rd != nil
+
+//@ extern funcvalue:cb/2 as verif_x_journal_cb
+//@   modifies nothing
+
+// processJournalRecordsReader: the returned offset advances by exactly the bytes consumed; every record handed to the
+// callback starts at the current offset, was length- and CRC-validated as exactly the bytes the stream holds there,
+// and only then is consumed; replay stops (without consuming) at a zero length, an oversized length, a short tail, an
+// invalid record, an unreadable record or a callback error. The stream itself is unconstrained: every prefix,
+// zero-filled, partially written or garbage tail is covered.
+//@ func processJournalRecordsReader
+//@   property C03 C10
+//@   ghost_set verif_ghost.jReaderOff = off
+//@   nopanic
+//@   requires r != nil && cb != nil && ctx != nil
+//@   at call validateJournalRecord: assert len(arg0:[]byte) == int(l) && l > 0
+//@   at call cb: assert arg0:int64 == off && verif_ghost.jValidOK
+//@   at call ReadFull: assert verif_ghost.jValidOK && len(arg1:[]byte) == int(l)
+//@   ensures  err == nil ==> off - offin == verif_ghost.iRead - old(verif_ghost.iRead)
+//@   also_modifies verif_ghost.iRead, verif_ghost.jValidOK
+//@   loop 1
+//@     invariant off - offin == verif_ghost.iRead - old(verif_ghost.iRead) && !recovered && rdr != nil
